@@ -2,7 +2,7 @@
     expression and which wildcard names it records there, for all trees built by [Add]
     (prefix splitting included).  Positions are byte-level: a static byte, a single wildcard,
     a free wildcard. *)
-From HV Require Import Base.Prelude C03.Model C03.Spec C03.Proofs.
+From HV Require Import Base.Prelude C03.Model C03.Spec C03.Proofs C03.ProofsTree.
 Open Scope string_scope.
 Open Scope list_scope.
 Local Arguments Ascii.eqb : simpl never.
@@ -322,3 +322,478 @@ Proof.
            ++ cbn [andb] in Ee. rewrite Ee. f_equal. exact Hrun.
         -- unfold after, slash. rewrite Es. f_equal. exact Hrun.
 Qed.
+
+(* ------------------------------------------------------------------ addNode, one step *)
+
+Lemma add_node_cons fx3 f n token prest wk ins fin :
+  add_node fx3 (S f) n (String token prest) wk ins fin =
+  let path := String token prest in
+  if negb ins && Ascii.eqb token "*" then
+    match index_byte "/" path with
+    | Some _ => AInvalid
+    | None =>
+      let name := sdrop 1 (this_tok path) in
+      let '(n1, c) := match t_catch n with
+                      | Some c => (n, c)
+                      | None => (child_created n, leaf name)
+                      end in
+      if negb (String.eqb (sdrop 1 path) (t_path c)) then AInvalid else
+      if fx3 && negb (is_nil (t_keys c)) && negb (list_eqb String.eqb (t_keys c) (wk ++ [name])) then AInvalid else
+      AOk (set_catch n1 (fin (set_keys c (wk ++ [name]))))
+    end
+  else if negb ins && Ascii.eqb token ":" then
+    let '(n1, w) := match t_wild n with
+                    | Some w => (n, w)
+                    | None => (child_created n, leaf "wildcard")
+                    end in
+    match add_node fx3 f w (sdrop (tok_end path) path) (wk ++ [sdrop 1 (this_tok path)]) false fin with
+    | AOk w' => AOk (set_wild n1 w')
+    | e => e
+    end
+  else
+    match find_static (tok' ins path) (t_statics n) with
+    | Some child =>
+      let '(child1, split) := split_common_prefix child (this_tok' ins path) in
+      match add_node fx3 f child1 (sdrop (if is_esc ins path then S split else split) path) wk
+                     (negb (Ascii.eqb (tok' ins path) "/")) fin with
+      | AOk child2 => AOk (set_statics n (replace_static (tok' ins path) child2 (t_statics n)))
+      | e => e
+      end
+    | None =>
+      match add_node fx3 f (leaf (this_tok' ins path)) (sdrop (tok_end path) path) wk
+                     (negb (Ascii.eqb (tok' ins path) "/")) fin with
+      | AOk child' => AOk (set_statics (child_created n) (t_statics n ++ [(tok' ins path, child')]))
+      | e => e
+      end
+    end.
+Proof. reflexivity. Qed.
+
+(* ------------------------------------------------------------------ well-formed trees, and what they store *)
+
+Definition head_is (c : ascii) (s : string) : Prop := exists r, s = String c r.
+
+(** every static child's path starts with the byte it is indexed by *)
+Inductive WF : tree -> Prop :=
+| wf_node n :
+    Forall (fun ct => head_is (fst ct) (t_path (snd ct)) /\ WF (snd ct)) (t_statics n) ->
+    (forall w, t_wild n = Some w -> WF w) ->
+    WF n.
+
+(** value [v] stored under [keys] at position [pos] is route [v] of the table: the
+    position is that route's expression, the keys are the names it declares *)
+Definition entry_ok (es : list centry) (pos : list fpiece) (keys : list string) (v : nat) : Prop :=
+  exists e, nth_error es v = Some e /\ erase (epos (ce_path e)) = pos /\ keys = enames (epos (ce_path e)).
+
+Inductive Inv (es : list centry) : list fpiece -> tree -> Prop :=
+| inv_node pos n :
+    (forall v, In v (t_values n) -> entry_ok es pos (t_keys n) v) ->
+    (t_values n = [] -> t_keys n = []) ->
+    Forall (fun ct => Inv es (pos ++ fcs (t_path (snd ct))) (snd ct)) (t_statics n) ->
+    (forall w, t_wild n = Some w -> Inv es (pos ++ [FW]) w) ->
+    (forall c, t_catch n = Some c -> forall v, In v (t_values c) -> entry_ok es (pos ++ [FX]) (t_keys c) v) ->
+    Inv es pos n.
+
+Lemma entry_ok_mono es e pos keys v : entry_ok es pos keys v -> entry_ok (es ++ [e]) pos keys v.
+Proof.
+  intros (e0 & H1 & H2 & H3). exists e0. split; [|auto].
+  rewrite nth_error_app1; [exact H1|]. apply nth_error_Some. congruence.
+Qed.
+
+Lemma entry_ok_count es pos keys v : entry_ok es pos keys v -> length keys = count_wild pos.
+Proof. intros (e0 & _ & <- & ->). apply enames_count. Qed.
+
+Lemma Inv_mono es e n : forall pos, Inv es pos n -> Inv (es ++ [e]) pos n.
+Proof.
+  induction n as [p st w c vs ks bt IHs IHw IHc] using tree_ind'.
+  intros pos H. inversion H as [pos0 n0 Hv Hk Hst Hw Hc]; subst. simpl in *.
+  constructor; simpl.
+  - intros v Hin. apply entry_ok_mono. auto.
+  - exact Hk.
+  - rewrite Forall_forall in *. intros ct Hin. apply (IHs ct Hin). apply (Hst ct Hin).
+  - intros w0 E. apply (IHw w0 E). apply Hw. exact E.
+  - intros c0 E v Hin. apply entry_ok_mono. eapply Hc; eauto.
+Qed.
+
+(** the node's own path plays no role *)
+Lemma Inv_set_path es pos n p : Inv es pos n -> Inv es pos (set_path n p).
+Proof. intro H. inversion H; subst. constructor; assumption. Qed.
+
+Lemma WF_set_path n p : WF n -> WF (set_path n p).
+Proof. intro H. inversion H; subst. constructor; assumption. Qed.
+
+Lemma WF_leaf p : WF (leaf p).
+Proof. constructor; simpl; [constructor | discriminate]. Qed.
+
+Lemma Inv_leaf es pos p : Inv es pos (leaf p).
+Proof. constructor; simpl; try tauto; try discriminate. constructor. Qed.
+
+(* ---- common prefixes *)
+
+Lemma common_prefix_stake a b :
+  stake (common_prefix_len a b) a = stake (common_prefix_len a b) b.
+Proof.
+  revert b. induction a as [|x r IH]; intros [|y s]; simpl; try reflexivity.
+  destruct (Ascii.eqb x y) eqn:E; [|reflexivity].
+  apply Ascii.eqb_eq in E. subst y. simpl. rewrite IH. reflexivity.
+Qed.
+
+Lemma common_prefix_le a b : common_prefix_len a b <= slen a /\ common_prefix_len a b <= slen b.
+Proof.
+  revert b. induction a as [|x r IH]; intros [|y s]; simpl; unfold slen in *; simpl; try lia.
+  destruct (Ascii.eqb x y); simpl; [|lia]. destruct (IH s). lia.
+Qed.
+
+Lemma common_prefix_head c r s : 1 <= common_prefix_len (String c r) (String c s).
+Proof. simpl. rewrite Ascii.eqb_refl. lia. Qed.
+
+Lemma prefix_slen a b : prefix a b = true -> slen a <= slen b.
+Proof.
+  intro H. apply prefix_split in H as (t & ->). unfold slen.
+  induction a as [|c a IH]; simpl; lia.
+Qed.
+
+Lemma prefix_stake a b : prefix a b = true -> stake (slen a) b = a.
+Proof.
+  intro H. apply prefix_split in H as (t & ->).
+  induction a as [|c a IH]; simpl; [destruct t; reflexivity|]. unfold slen in *. simpl. rewrite IH. reflexivity.
+Qed.
+
+(** splitCommonPrefix keeps what is stored below the child, at the same positions: the node to
+    descend into stands for the first [split] bytes of the token *)
+Lemma split_inv es pos child tok c r1 r2 :
+  t_path child = String c r1 -> tok = String c r2 ->
+  WF child -> Inv es (pos ++ fcs (t_path child)) child ->
+  forall child1 split, split_common_prefix child tok = (child1, split) ->
+  1 <= split <= slen tok /\ t_path child1 = stake split tok /\
+  WF child1 /\ Inv es (pos ++ fcs (t_path child1)) child1.
+Proof.
+  intros Hp Ht Hwf Hinv child1 split. unfold split_common_prefix.
+  destruct (prefix (t_path child) tok) eqn:Epre.
+  - intro H. inversion H; subst child1 split. clear H.
+    split; [split; [rewrite Hp, slen_cons; lia | apply prefix_slen; assumption]|].
+    split; [symmetry; apply prefix_stake; assumption|]. split; assumption.
+  - set (i := common_prefix_len (t_path child) tok).
+    assert (Hi1 : 1 <= i) by (unfold i; rewrite Hp, Ht; apply common_prefix_head).
+    destruct (common_prefix_le (t_path child) tok) as [Hia Hib]. fold i in Hia, Hib.
+    assert (Hst : stake i (t_path child) = stake i tok) by apply common_prefix_stake.
+    destruct (sdrop i (t_path child)) as [|c0 rest0] eqn:Erest.
+    + (* the whole path of the child is a prefix of the token: excluded by the first test *)
+      exfalso. assert (E : t_path child = stake i tok).
+      { rewrite <- Hst. rewrite <- (stake_sdrop i (t_path child)) at 1. rewrite Erest.
+        clear. generalize (stake i (t_path child)). intro s. induction s; simpl; congruence. }
+      assert (P : prefix (t_path child) tok = true).
+      { rewrite E. rewrite <- (stake_sdrop i tok) at 2. apply prefix_app. }
+      congruence.
+    + intro H. inversion H; subst child1 split. clear H. simpl.
+      split; [lia|]. split; [reflexivity|].
+      assert (Ecat : (stake i tok ++ String c0 rest0)%string = t_path child).
+      { rewrite <- Hst, <- Erest. apply stake_sdrop. }
+      split.
+      * constructor; simpl; [|discriminate]. constructor; [|constructor]. simpl. split.
+        -- exists rest0. reflexivity.
+        -- apply WF_set_path. assumption.
+      * constructor; simpl; try tauto; try discriminate.
+        constructor; [|constructor]. simpl.
+        rewrite <- app_assoc, <- fcs_app, Ecat. apply Inv_set_path. assumption.
+Qed.
+
+(* ------------------------------------------------------------------ Add keeps the invariant *)
+
+Lemma count_wild_app a b : count_wild (a ++ b) = count_wild a + count_wild b.
+Proof. induction a as [|[c| |] r IH]; simpl; lia. Qed.
+
+Lemma strs_eqb_eq a b : list_eqb String.eqb a b = true <-> a = b.
+Proof. apply list_eqb_spec. apply String.eqb_eq. Qed.
+
+Lemma replace_static_Forall (P : ascii * tree -> Prop) c t' l :
+  Forall P l -> (forall t, find_static c l = Some t -> P (c, t')) ->
+  Forall P (replace_static c t' l).
+Proof.
+  induction l as [|[d t] r IH]; intros HF Hn; simpl; [constructor|].
+  inversion HF as [|x y Hx Hr]; subst. simpl in Hn.
+  destruct (Ascii.eqb c d) eqn:E.
+  - apply Ascii.eqb_eq in E. subst d. constructor; [apply (Hn t); reflexivity | assumption].
+  - constructor; [assumption | apply IH; assumption].
+Qed.
+
+Lemma this_tok'_head ins token prest :
+  head_is (tok' ins (String token prest)) (this_tok' ins (String token prest)).
+Proof.
+  unfold this_tok', tok'. destruct (is_esc ins (String token prest)) eqn:Ee.
+  - rewrite is_esc_spec in Ee. apply andb_true_iff in Ee as [Ee Esp]. apply andb_true_iff in Ee as [_ Eb].
+    apply Ascii.eqb_eq in Eb. subst token. destruct prest as [|c2 r2]; [discriminate|].
+    assert (Ens := special_not_slash _ Esp).
+    unfold this_tok. rewrite tok_end_nonslash by reflexivity.
+    rewrite next_sep_cons, Ascii.eqb_sym, Ens. cbn [stake sdrop]. eexists. reflexivity.
+  - cbn [head_or]. destruct (Ascii.eqb token "/") eqn:Es.
+    + unfold this_tok, tok_end. rewrite Es. cbn [stake]. eexists. reflexivity.
+    + unfold this_tok. rewrite (tok_end_nonslash _ _ Es). cbn [stake]. eexists. reflexivity.
+Qed.
+
+Lemma tok_end_le token prest : 1 <= tok_end (String token prest) <= slen (String token prest).
+Proof.
+  unfold tok_end. destruct (Ascii.eqb token "/") eqn:E.
+  - rewrite slen_cons. lia.
+  - assert (H := next_sep_le (String token prest)). rewrite next_sep_cons in *.
+    assert (E2 : Ascii.eqb slash token = false) by (unfold slash; rewrite Ascii.eqb_sym; exact E).
+    rewrite E2 in *. lia.
+Qed.
+
+Lemma slen_sdrop1 s : slen (sdrop 1 s) = slen s - 1.
+Proof. destruct s; unfold slen; simpl; lia. Qed.
+
+Lemma this_tok'_len ins token prest :
+  (if is_esc ins (String token prest) then S (slen (this_tok' ins (String token prest)))
+   else slen (this_tok' ins (String token prest))) = tok_end (String token prest).
+Proof.
+  assert (Hte := tok_end_le token prest).
+  assert (Hl : slen (this_tok (String token prest)) = tok_end (String token prest)).
+  { unfold this_tok. apply slen_stake. lia. }
+  unfold this_tok'. destruct (is_esc ins (String token prest)) eqn:Ee; [|exact Hl].
+  rewrite slen_sdrop1, Hl. lia.
+Qed.
+
+Section AddOne.
+Variable es : list centry.
+Variable e : centry.
+Variable flag : bool.
+Let newv := length es.
+Let es' := es ++ [e].
+Let fin := put_value flag newv.
+
+Lemma new_entry_ok pos keys :
+  pos = erase (epos (ce_path e)) -> keys = enames (epos (ce_path e)) -> entry_ok es' pos keys newv.
+Proof.
+  intros -> ->. exists e. split; [|auto]. unfold es', newv.
+  rewrite nth_error_app2 by lia. rewrite Nat.sub_diag. reflexivity.
+Qed.
+
+(** the value is appended at a node: the keys of the node (old or just set) are the names of the
+    new route, and the old values agree *)
+Lemma fin_inv pos n keys :
+  pos = erase (epos (ce_path e)) -> keys = enames (epos (ce_path e)) ->
+  (t_keys n = keys \/ t_keys n = []) ->
+  Inv es pos n -> Inv es' pos (fin (set_keys n keys)).
+Proof.
+  intros Hp Hk Hold H. inversion H as [pos0 n0 Hv Hk0 Hst Hw Hc]; subst pos0 n0.
+  constructor; simpl.
+  - intros v Hin. apply in_app_or in Hin as [Hin|[<-|[]]].
+    + assert (Hok := Hv v Hin). apply entry_ok_mono.
+      destruct Hold as [Hold|Hold]; [rewrite <- Hold; exact Hok|].
+      (* old keys empty: then the position has no wildcard, so the new keys are empty as well *)
+      assert (Hc0 := entry_ok_count _ _ _ _ Hok). rewrite Hold in Hc0. simpl in Hc0.
+      assert (Hn : length keys = 0).
+      { rewrite Hk, enames_count, <- Hp. symmetry. exact Hc0. }
+      destruct keys; [|discriminate]. rewrite <- Hold. exact Hok.
+    + apply new_entry_ok; assumption.
+  - intro E. destruct (t_values n); discriminate.
+  - rewrite Forall_forall in *. intros ct Hin. apply Inv_mono. auto.
+  - intros w E. apply Inv_mono. auto.
+  - intros c E v Hin. apply entry_ok_mono. eauto.
+Qed.
+
+Lemma Inv_same_children es0 pos n n2 :
+  t_values n2 = t_values n -> t_keys n2 = t_keys n -> t_statics n2 = t_statics n ->
+  t_wild n2 = t_wild n -> t_catch n2 = t_catch n -> Inv es0 pos n -> Inv es0 pos n2.
+Proof.
+  intros E1 E2 E3 E4 E5 H. inversion H; subst. constructor; rewrite ?E1, ?E2, ?E3, ?E4, ?E5; assumption.
+Qed.
+
+Lemma add_node_inv : forall fuel n path wk ins pos n',
+  pos ++ erase (fposm (mode_of ins) path) = erase (epos (ce_path e)) ->
+  wk ++ enames (fposm (mode_of ins) path) = enames (epos (ce_path e)) ->
+  WF n -> Inv es pos n ->
+  add_node true fuel n path wk ins fin = AOk n' ->
+  WF n' /\ Inv es' pos n' /\ t_path n' = t_path n.
+Proof.
+  induction fuel as [|f IH]; intros n path wk ins pos n' Hpos Hnames Hwf Hinv Hadd; [discriminate|].
+  destruct path as [|token prest].
+  - (* the node is reached *)
+    simpl in Hpos, Hnames. rewrite app_nil_r in Hpos, Hnames. simpl in Hadd.
+    assert (Hwf' : forall k, WF (fin (set_keys n k))).
+    { intro k. inversion Hwf as [n00 Hwfs0 Hwfw0]; subst n00. constructor; assumption. }
+    destruct (is_nil wk) eqn:En.
+    + apply is_nil_true in En. rewrite En in *. clear En. inversion Hadd; subst n'. clear Hadd.
+      assert (Hk : t_keys n = []).
+      { inversion Hinv as [pos0 n0 Hv Hk0 _ _ _]; subst pos0 n0.
+        destruct (t_values n) as [|v0 vs] eqn:Ev; [apply Hk0; reflexivity|].
+        assert (Hok := Hv v0 (or_introl eq_refl)). apply entry_ok_count in Hok.
+        rewrite Hpos, <- enames_count, <- Hnames in Hok. destruct (t_keys n); [reflexivity | discriminate]. }
+      replace (fin n) with (fin (set_keys n [])) by (destruct n; simpl in *; subst; reflexivity).
+      split; [apply Hwf'|]. split; [|reflexivity].
+      apply fin_inv; auto.
+    + destruct (negb (is_nil (t_keys n)) && negb (list_eqb String.eqb (t_keys n) wk)) eqn:Ek; [discriminate|].
+      inversion Hadd; subst n'. clear Hadd.
+      split; [apply Hwf'|]. split; [|reflexivity].
+      apply fin_inv; auto.
+      apply andb_false_iff in Ek as [Ek|Ek]; apply negb_false_iff in Ek.
+      * right. apply is_nil_true. exact Ek.
+      * left. apply strs_eqb_eq. exact Ek.
+  - rewrite add_node_cons in Hadd. cbv zeta in Hadd.
+    set (path := String token prest) in *.
+    destruct (negb ins && Ascii.eqb token "*") eqn:Estar.
+    + (* free wildcard *)
+      apply andb_true_iff in Estar as [Ei Et]. apply negb_true_iff in Ei. subst ins.
+      apply Ascii.eqb_eq in Et. subst token.
+      assert (Hnosl := index_byte_next_sep path).
+      destruct (index_byte "/" path) as [k|] eqn:Eib; [discriminate|].
+      assert (Hname : sdrop 1 (this_tok path) = prest).
+      { unfold this_tok, path. rewrite tok_end_nonslash by reflexivity. fold path.
+        unfold path in Hnosl. rewrite next_sep_cons in Hnosl. change (Ascii.eqb slash "*") with false in Hnosl.
+        rewrite slen_cons in Hnosl. inversion Hnosl as [Hn]. rewrite Hn. cbn [stake sdrop].
+        apply stake_all. lia. }
+      rewrite Hname in Hadd.
+      unfold path in Hpos, Hnames. cbn [mode_of] in Hpos, Hnames. rewrite fposm_seg in Hpos, Hnames.
+      change (Ascii.eqb "*" "*") with true in Hpos, Hnames. cbv iota in Hpos, Hnames.
+      cbn [erase map erase1 enames] in Hpos, Hnames.
+      inversion Hinv as [pos0 n0 Hv Hk0 Hst Hw Hc]; subst pos0 n0.
+      set (c0 := match t_catch n with Some c => c | None => leaf prest end).
+      set (n1 := match t_catch n with Some c => n | None => child_created n end).
+      assert (Hadd' : (if negb (String.eqb (sdrop 1 path) (t_path c0)) then AInvalid else
+                       if true && negb (is_nil (t_keys c0)) && negb (list_eqb String.eqb (t_keys c0) (wk ++ [prest]))
+                       then AInvalid else AOk (set_catch n1 (fin (set_keys c0 (wk ++ [prest]))))) = AOk n').
+      { unfold c0, n1. destruct (t_catch n); exact Hadd. }
+      clear Hadd. destruct (negb (String.eqb (sdrop 1 path) (t_path c0))); [discriminate|].
+      destruct (true && negb (is_nil (t_keys c0)) && negb (list_eqb String.eqb (t_keys c0) (wk ++ [prest]))) eqn:Ek;
+        [discriminate|].
+      inversion Hadd'; subst n'. clear Hadd'.
+      assert (Hold : forall v, In v (t_values c0) -> entry_ok es (pos ++ [FX]) (t_keys c0) v).
+      { unfold c0. destruct (t_catch n) as [cc|] eqn:Ec; [apply (Hc cc eq_refl) | intros v []]. }
+      assert (Hn1 : t_values n1 = t_values n /\ t_keys n1 = t_keys n /\ t_statics n1 = t_statics n /\
+                    t_wild n1 = t_wild n /\ t_path n1 = t_path n).
+      { unfold n1. destruct (t_catch n); simpl; repeat split. }
+      destruct Hn1 as (E1 & E2 & E3 & E4 & E5).
+      split; [|split].
+      * inversion Hwf as [n00 Hwfs0 Hwfw0]; subst n00. constructor; simpl; rewrite ?E3, ?E4; assumption.
+      * constructor; simpl; rewrite ?E1, ?E2, ?E3, ?E4.
+        -- intros v Hin. apply entry_ok_mono. auto.
+        -- exact Hk0.
+        -- rewrite Forall_forall in *. intros ct Hin. apply Inv_mono. auto.
+        -- intros w E. apply Inv_mono. auto.
+        -- intros c E v Hin. inversion E; subst c. clear E. simpl in *.
+           apply in_app_or in Hin as [Hin|[<-|[]]].
+           ++ assert (Hok := Hold v Hin). apply entry_ok_mono.
+              cbn [andb] in Ek. apply andb_false_iff in Ek as [Ek|Ek]; apply negb_false_iff in Ek.
+              ** apply is_nil_true in Ek. apply entry_ok_count in Hok. rewrite Ek, count_wild_app in Hok.
+                 simpl in Hok. lia.
+              ** apply strs_eqb_eq in Ek. rewrite <- Ek. exact Hok.
+           ++ apply new_entry_ok; auto.
+      * simpl. exact E5.
+    + destruct (negb ins && Ascii.eqb token ":") eqn:Ecolon.
+      * (* single wildcard *)
+        apply andb_true_iff in Ecolon as [Ei Et]. apply negb_true_iff in Ei. subst ins.
+        apply Ascii.eqb_eq in Et. subst token.
+        assert (Hte : tok_end path = S (next_sep prest)) by (apply tok_end_nonslash; reflexivity).
+        assert (Hname : sdrop 1 (this_tok path) = stake (next_sep prest) prest).
+        { unfold this_tok. rewrite Hte. reflexivity. }
+        rewrite Hname, Hte in Hadd. unfold path in Hadd. cbn [sdrop] in Hadd.
+        unfold path in Hpos, Hnames. cbn [mode_of] in Hpos, Hnames. rewrite fposm_seg in Hpos, Hnames.
+        change (Ascii.eqb ":" "*") with false in Hpos, Hnames. change (Ascii.eqb ":" ":") with true in Hpos, Hnames.
+        cbv iota in Hpos, Hnames. rewrite name_skip in Hpos, Hnames.
+        cbn [erase map erase1 enames] in Hpos, Hnames.
+        inversion Hinv as [pos0 n0 Hv Hk0 Hst Hw Hc]; subst pos0 n0.
+        set (w0 := match t_wild n with Some w => w | None => leaf "wildcard" end).
+        set (n1 := match t_wild n with Some w => n | None => child_created n end).
+        assert (Hadd' : match add_node true f w0 (sdrop (next_sep prest) prest)
+                                (wk ++ [stake (next_sep prest) prest]) false fin with
+                        | AOk w' => AOk (set_wild n1 w') | x => x end = AOk n').
+        { unfold w0, n1. destruct (t_wild n); exact Hadd. }
+        clear Hadd.
+        destruct (add_node true f w0 (sdrop (next_sep prest) prest) (wk ++ [stake (next_sep prest) prest]) false fin)
+          as [w'| |] eqn:Erec; try discriminate.
+        inversion Hadd'; subst n'. clear Hadd'.
+        assert (Hw0 : WF w0 /\ Inv es (pos ++ [FW]) w0).
+        { unfold w0. destruct (t_wild n) as [ww|] eqn:Ew.
+          - inversion Hwf as [n00 Hwfs0 Hwfw0]; subst n00. split; [auto | apply Hw; reflexivity].
+          - split; [apply WF_leaf | apply Inv_leaf]. }
+        destruct Hw0 as [Hw0wf Hw0inv].
+        destruct (IH w0 (sdrop (next_sep prest) prest) (wk ++ [stake (next_sep prest) prest]) false (pos ++ [FW]) w')
+          as (R1 & R2 & R3); try assumption.
+        { cbn [mode_of]. rewrite <- app_assoc. exact Hpos. }
+        { cbn [mode_of]. rewrite <- app_assoc. exact Hnames. }
+        assert (Hn1 : t_values n1 = t_values n /\ t_keys n1 = t_keys n /\ t_statics n1 = t_statics n /\
+                      t_catch n1 = t_catch n /\ t_path n1 = t_path n).
+        { unfold n1. destruct (t_wild n); simpl; repeat split. }
+        destruct Hn1 as (E1 & E2 & E3 & E4 & E5).
+        split; [|split].
+        -- inversion Hwf as [n00 Hwfs0 Hwfw0]; subst n00. constructor; simpl; rewrite ?E3; [assumption|].
+           intros w E. inversion E; subst. assumption.
+        -- constructor; simpl; rewrite ?E1, ?E2, ?E3, ?E4.
+           ++ intros v Hin. apply entry_ok_mono. auto.
+           ++ exact Hk0.
+           ++ rewrite Forall_forall in *. intros ct Hin. apply Inv_mono. auto.
+           ++ intros w E. inversion E; subst. assumption.
+           ++ intros c E v Hin. apply entry_ok_mono. eauto.
+        -- simpl. exact E5.
+      * (* static token *)
+        assert (Hnw : ins = false -> Ascii.eqb token "*" = false /\ Ascii.eqb token ":" = false).
+        { intros ->. cbn [negb andb] in Estar, Ecolon. auto. }
+        inversion Hinv as [pos0 n0 Hv Hk0 Hst Hw Hc]; subst pos0 n0.
+        assert (Hhead := this_tok'_head ins token prest). fold path in Hhead.
+        destruct Hhead as (trest & Htok).
+        destruct (find_static (tok' ins path) (t_statics n)) as [child|] eqn:Efs.
+        -- (* an existing child, possibly split *)
+           assert (Hin := find_static_In _ _ _ Efs).
+           inversion Hwf as [n0 Hwfs Hwfw]; subst n0.
+           assert (Hch : head_is (tok' ins path) (t_path child) /\ WF child).
+           { rewrite Forall_forall in Hwfs. apply (Hwfs _ Hin). }
+           destruct Hch as [(crest & Hcp) Hcwf].
+           assert (Hcinv : Inv es (pos ++ fcs (t_path child)) child).
+           { rewrite Forall_forall in Hst. apply (Hst _ Hin). }
+           destruct (split_common_prefix child (this_tok' ins path)) as [child1 split] eqn:Esp.
+           destruct (split_inv es pos child _ _ _ _ Hcp Htok Hcwf Hcinv _ _ Esp) as (Hsplit & Hp1 & Hwf1 & Hinv1).
+           destruct (add_node true f child1 (sdrop (if is_esc ins path then S split else split) path) wk
+                              (negb (Ascii.eqb (tok' ins path) "/")) fin) as [child2| |] eqn:Erec; try discriminate.
+           inversion Hadd; subst n'. clear Hadd.
+           assert (Hcons := static_consume ins token prest split Hnw Hsplit). fold path in Hcons.
+           destruct (IH child1 (sdrop (if is_esc ins path then S split else split) path) wk
+                        (negb (Ascii.eqb (tok' ins path) "/")) (pos ++ fcs (t_path child1)) child2) as (R1 & R2 & R3); try assumption.
+           { rewrite after_mode_of, <- app_assoc, Hp1, <- erase_ecs, <- erase_app, <- Hcons. exact Hpos. }
+           { rewrite after_mode_of. rewrite Hcons, enames_app, enames_ecs in Hnames. exact Hnames. }
+           split; [|split; [|reflexivity]].
+           ++ constructor; simpl; [|assumption].
+              apply replace_static_Forall; [assumption|]. intros t _. simpl. split; [|assumption].
+              rewrite R3, Hp1, Htok. destruct split as [|s0]; [lia|]. cbn [stake]. eexists. reflexivity.
+           ++ constructor; simpl.
+              ** intros v Hin'. apply entry_ok_mono. auto.
+              ** exact Hk0.
+              ** apply replace_static_Forall.
+                 --- rewrite Forall_forall in *. intros ct Hin'. apply Inv_mono. auto.
+                 --- intros t _. simpl. rewrite R3. exact R2.
+              ** intros w E. apply Inv_mono. auto.
+              ** intros c E v Hin'. apply entry_ok_mono. eauto.
+        -- (* a new child for the whole token *)
+           destruct (add_node true f (leaf (this_tok' ins path)) (sdrop (tok_end path) path) wk
+                              (negb (Ascii.eqb (tok' ins path) "/")) fin) as [child'| |] eqn:Erec; try discriminate.
+           inversion Hadd; subst n'. clear Hadd.
+           assert (Hlen : 1 <= slen (this_tok' ins path) <= slen (this_tok' ins path)).
+           { rewrite Htok, slen_cons. lia. }
+           assert (Hcons := static_consume ins token prest _ Hnw Hlen). fold path in Hcons.
+           rewrite stake_all in Hcons by lia.
+           assert (Hdrop : sdrop (if is_esc ins path then S (slen (this_tok' ins path)) else slen (this_tok' ins path)) path
+                           = sdrop (tok_end path) path).
+           { f_equal. apply this_tok'_len. }
+           rewrite Hdrop in Hcons.
+           destruct (IH (leaf (this_tok' ins path)) (sdrop (tok_end path) path) wk (negb (Ascii.eqb (tok' ins path) "/"))
+                        (pos ++ fcs (this_tok' ins path)) child') as (R1 & R2 & R3);
+             try assumption.
+           { rewrite after_mode_of, <- app_assoc, <- erase_ecs, <- erase_app, <- Hcons. exact Hpos. }
+           { rewrite after_mode_of. rewrite Hcons, enames_app, enames_ecs in Hnames. exact Hnames. }
+           { apply WF_leaf. }
+           { apply Inv_leaf. }
+           simpl in R3.
+           split; [|split; [|reflexivity]].
+           ++ inversion Hwf as [n0 Hwfs Hwfw]; subst n0. constructor; simpl; [|assumption].
+              apply Forall_app. split; [assumption|]. constructor; [|constructor]. simpl.
+              split; [|assumption]. rewrite R3, Htok. eexists. reflexivity.
+           ++ constructor; simpl.
+              ** intros v Hin'. apply entry_ok_mono. auto.
+              ** exact Hk0.
+              ** apply Forall_app. split.
+                 --- rewrite Forall_forall in *. intros ct Hin'. apply Inv_mono. auto.
+                 --- constructor; [|constructor]. simpl. rewrite R3. exact R2.
+              ** intros w E. apply Inv_mono. auto.
+              ** intros c E v Hin'. apply entry_ok_mono. eauto.
+Qed.
+
+End AddOne.
